@@ -2,16 +2,17 @@
 # usage: run.sh <Cxx> [quick|thorough]   |   run.sh replay <file>
 # Rebuilds vcheck against the CURRENT working tree of /repo (module replace => /repo) and runs the check.
 set -u
-cd /verif
+cd "$(dirname "$(readlink -f "$0")")"
+export VERIF_ROOT=$PWD
 export GOFLAGS=-mod=mod GOPROXY=off
-export GOCACHE=${GOCACHE:-/verif/cache/gocache}
-mkdir -p /verif/bin /verif/out /verif/cache
-BIN=/verif/bin/vcheck-$$; trap 'rm -f $BIN /verif/out/build.$$.log' EXIT
+export GOCACHE=${GOCACHE:-/verif/cache/gocache}   # shared build cache (also for snapshots)
+mkdir -p $VERIF_ROOT/bin $VERIF_ROOT/out /verif/cache
+BIN=$VERIF_ROOT/bin/vcheck-$$; trap 'rm -f $BIN $VERIF_ROOT/out/build.$$.log' EXIT
 ID=${1:?id}; TIER=${2:-${VERIF_TIER:-quick}}
-python3 /verif/tools/genall.py
-if ! go build -o $BIN ./cmd/vcheck 2>/verif/out/build.$$.log; then
+python3 $VERIF_ROOT/tools/genall.py
+if ! go build -o $BIN ./cmd/vcheck 2>$VERIF_ROOT/out/build.$$.log; then
   # a tree that does not compile is not a property violation; report as harness error
-  cat /verif/out/build.$$.log >&2; rm -f /verif/out/build.$$.log
+  cat $VERIF_ROOT/out/build.$$.log >&2; rm -f $VERIF_ROOT/out/build.$$.log
   echo "HARNESS-ERROR build failed" >&2
   exit 2
 fi
